@@ -1,1 +1,259 @@
-import EoNVerif.Basic
+import EoNVerif.Proofs.ODESemi
+/-!
+C07 — equivalent ODE models are semiconjugate.  For a pair (A, B) we give the map Φ from A's state
+to B's, its derivative DΦ (written out explicitly and justified by the polynomial-derivative lemmas at the end), and
+prove  DΦ(x)·f_A(x) = f_B(Φ(x))  together with equality of the observed S, I, R.  All statements are algebraic
+identities over ℚ with explicit non-vanishing hypotheses for the denominators that the code divides by.
+The definitions `phiS`, `phiR`, `phiI`, `SSof`, `SIof`, `dSSof`, `dSIof`, `only`, `psiHPoly` live in
+`EoNVerif.Proofs.ODESemi`.
+-/
+namespace ODE
+open Polynomial
+
+/-! ## EBCM → SIR super-compact pairwise and SIR compact pairwise -/
+section EBCM
+variable (K : Nat) (c : Nat → Rat) (N tau gamma phiS0 phiR0 : Rat)
+
+/-- the EBCM θ-equation is θ' = -τ φ_I -/
+theorem ebcm_theta (theta R : Rat) (ht : tau ≠ 0) :
+    (ebcm K c N tau gamma phiS0 phiR0 theta R).1 = -tau * phiI K c tau gamma phiS0 phiR0 theta := by
+  simp only [ebcm, phiI, phiS, phiR]
+  field_simp
+  ring
+
+/-- **EBCM → SIR super-compact pairwise**: with Φ(θ,R) = (θ, SS(θ), SI(θ), R) -/
+theorem ebcm_to_superCompact (theta R : Rat) (ht : tau ≠ 0) (hN : N ≠ 0) (hp : psiHP K c theta ≠ 0) :
+    let th' := (ebcm K c N tau gamma phiS0 phiR0 theta R).1
+    let r := sirSuperCompactPW K c tau gamma N theta (SSof K c N phiS0 theta) (SIof K c N tau gamma phiS0 phiR0 theta) R
+    r.1 = th' ∧
+    r.2.1 = dSSof K c N phiS0 theta * th' ∧
+    r.2.2.1 = dSIof K c N tau gamma phiS0 phiR0 theta * th' ∧
+    r.2.2.2 = (ebcm K c N tau gamma phiS0 phiR0 theta R).2 := by
+  intro th' r
+  have hth : th' = -tau * phiI K c tau gamma phiS0 phiR0 theta := ebcm_theta K c N tau gamma phiS0 phiR0 theta R ht
+  rw [hth]
+  simp only [r, sirSuperCompactPW, SSof, SIof, dSSof, dSIof, phiS, ebcm]
+  generalize phiI K c tau gamma phiS0 phiR0 theta = pI
+  generalize psiHP K c theta = P at hp ⊢
+  generalize psiHDP K c theta = D
+  generalize psiHP K c 1 = P1
+  refine ⟨?_, ?_, ?_, trivial⟩
+  · field_simp
+  · field_simp
+    ring
+  · field_simp
+    ring
+
+/-- **EBCM → SIR compact pairwise**: with S_k = N c_k θ^k (so dS_k/dt = N c_k k θ^(k-1) θ') -/
+theorem ebcm_to_compact (theta R : Rat) (ht : tau ≠ 0) (hN : N ≠ 0) (hth : theta ≠ 0) (hp : psiHP K c theta ≠ 0) :
+    let th' := (ebcm K c N tau gamma phiS0 phiR0 theta R).1
+    let r := sirCompactPW K tau gamma N (fun k => N * c k * theta ^ k)
+               (SSof K c N phiS0 theta) (SIof K c N tau gamma phiS0 phiR0 theta) R
+    (∀ k, k < K → r.1 k = N * c k * (kf k * theta ^ (k - 1)) * th') ∧
+    r.2.1 = dSSof K c N phiS0 theta * th' ∧
+    r.2.2.1 = dSIof K c N tau gamma phiS0 phiR0 theta * th' ∧
+    r.2.2.2 = (ebcm K c N tau gamma phiS0 phiR0 theta R).2 := by
+  intro th' r
+  have hth' : th' = -tau * phiI K c tau gamma phiS0 phiR0 theta := ebcm_theta K c N tau gamma phiS0 phiR0 theta R ht
+  rw [hth']
+  simp only [r, sirCompactPW, sumTo_S, sumTo_kS, sumTo_kkS, SSof, SIof, dSSof, dSIof, phiS, ebcm]
+  generalize phiI K c tau gamma phiS0 phiR0 theta = pI
+  generalize psiHP K c theta = P at hp ⊢
+  generalize psiHDP K c theta = D
+  generalize psiHP K c 1 = P1
+  refine ⟨?_, ?_, ?_, trivial⟩
+  · intro k _
+    cases k with
+    | zero => simp [kf]
+    | succ k =>
+      simp only [Nat.add_sub_cancel, pow_succ]
+      field_simp
+  · field_simp
+    ring
+  · field_simp
+    ring
+
+/-- the observed susceptible count agrees: Σ_k N c_k θ^k = N ψ̂(θ) -/
+theorem ebcm_compact_S (theta : Rat) : sumTo K (fun k => N * c k * theta ^ k) = N * psiH K c theta :=
+  sumTo_S K c N theta
+
+end EBCM
+
+/-! ## the generating-function helpers are a polynomial and its derivatives (justifies dSSof, dSIof, dS_k) -/
+theorem psiH_eval (K : Nat) (c : Nat → Rat) (x : Rat) : psiH K c x = (psiHPoly K c).eval x := by
+  unfold psiH psiHPoly sumTo
+  rw [eval_list_sum_map]
+  apply sumRat_map_congr
+  intro k _
+  simp
+theorem psiHP_deriv (K : Nat) (c : Nat → Rat) (x : Rat) : psiHP K c x = (derivative (psiHPoly K c)).eval x := by
+  unfold psiHP psiHPoly sumTo
+  rw [derivative_list_sum_map, eval_list_sum_map]
+  apply sumRat_map_congr
+  intro k _
+  simp only [derivative_C_mul_X_pow, eval_mul, eval_C, eval_pow, eval_X, kf]
+  ring
+theorem psiHDP_deriv (K : Nat) (c : Nat → Rat) (x : Rat) :
+    psiHDP K c x = (derivative (derivative (psiHPoly K c))).eval x := by
+  unfold psiHDP psiHPoly sumTo
+  rw [derivative_list_sum_map, derivative_list_sum_map, eval_list_sum_map]
+  apply sumRat_map_congr
+  intro k _
+  simp only [derivative_C_mul_X_pow, eval_mul, eval_C, eval_pow, eval_X, kf]
+  cases k with
+  | zero => simp
+  | succ k =>
+    rw [Nat.sub_sub]
+    simp only [Nat.add_sub_cancel]
+    push_cast
+    ring
+
+/-! ## regular-graph reductions: the homogeneous model is the restriction of the richer one to uniform states -/
+
+/-- heterogeneous mean-field SIS on an n-regular network = homogeneous mean-field -/
+theorem hetMF_sis_regular (K n : Nat) (hn : n < K) (tau gamma S I : Rat) (hpos : (n : Rat) * (I + S) ≠ 0) :
+    let r := sisHetMF K tau gamma (only n S) (only n I)
+    let h := sisHomMF ((n : Rat) / (S + I)) tau gamma S I
+    r.1 n = h.1 ∧ r.2 n = h.2 ∧ ∀ k, k ≠ n → r.1 k = 0 ∧ r.2 k = 0 := by
+  intro r h
+  have h1 : sumTo K (fun k => kf k * only n I k) = kf n * I := by
+    rw [sumTo_single K n hn _ (fun k hk => by simp [only, hk])]
+    simp [only]
+  have h2 : sumTo K (fun k => kf k * (only n I k + only n S k)) = kf n * (I + S) := by
+    rw [sumTo_single K n hn _ (fun k hk => by simp [only, hk])]
+    simp [only]
+  have hn0 : (n : Rat) ≠ 0 := left_ne_zero_of_mul hpos
+  have hIS : I + S ≠ 0 := right_ne_zero_of_mul hpos
+  have hSI : S + I ≠ 0 := by rwa [add_comm]
+  simp only [r, h, sisHetMF, sisHomMF, piI, h1, h2]
+  refine ⟨?_, ?_, ?_⟩
+  · simp only [only, if_true, kf]
+    field_simp
+    ring
+  · simp only [only, if_true, kf]
+    field_simp
+    ring
+  · intro k hk
+    simp [only, hk]
+
+/-- heterogeneous mean-field SIR on an n-regular network: S = S0 θ^n obeys the homogeneous mean-field equation -/
+theorem hetMF_sir_regular (K n : Nat) (hn : n < K) (tau gamma S0 Ntot theta R : Rat)
+    (hN : (n : Rat) * Ntot ≠ 0) :
+    let r := sirHetMF K tau gamma (only n S0) (only n Ntot) theta (only n R)
+    let S := S0 * theta ^ n
+    let I := Ntot - S - R
+    S0 * ((n : Rat) * theta ^ (n - 1)) * r.1 = (sirHomMF ((n : Rat) / Ntot) tau gamma S I).1 ∧
+    r.2 n = gamma * I := by
+  intro r S I
+  have h1 : sumTo K (fun k => kf k * (only n Ntot k - only n S0 k * theta ^ k - only n R k))
+      = kf n * (Ntot - S0 * theta ^ n - R) := by
+    rw [sumTo_single K n hn _ (fun k hk => by simp [only, hk])]
+    simp [only]
+  have h2 : sumTo K (fun k => kf k * only n Ntot k) = kf n * Ntot := by
+    rw [sumTo_single K n hn _ (fun k hk => by simp [only, hk])]
+    simp [only]
+  have hn0 : (n : Rat) ≠ 0 := left_ne_zero_of_mul hN
+  have hNt : Ntot ≠ 0 := right_ne_zero_of_mul hN
+  have hnpos : n ≠ 0 := by
+    intro h
+    apply hn0
+    simp [h]
+  obtain ⟨m, rfl⟩ := Nat.exists_eq_succ_of_ne_zero hnpos
+  simp only [r, S, I, sirHetMF, sirHomMF, h1, h2]
+  refine ⟨?_, ?_⟩
+  · simp only [kf, Nat.succ_sub_one, pow_succ]
+    field_simp
+  · simp [only]
+
+/-- individual-based SIS on an n-regular graph with uniform infection probability y = homogeneous mean-field -/
+theorem individual_sis_regular (nbrs : Nat → List Nat) (n : Nat) (tau gamma y Ntot : Rat) (i : Nat)
+    (hdeg : (nbrs i).length = n) (hN : Ntot ≠ 0) :
+    Ntot * sisIndividual nbrs (fun _ _ => tau) (fun _ => gamma) (fun _ => y) i
+      = (sisHomMF ((n : Rat) / Ntot) tau gamma (Ntot * (1 - y)) (Ntot * y)).2 := by
+  simp only [sisIndividual, sisHomMF, sumRat_map_const, hdeg]
+  field_simp
+  ring
+
+theorem individual_sir_regular (nbrs : Nat → List Nat) (n : Nat) (tau gamma x y Ntot : Rat) (i : Nat)
+    (hdeg : (nbrs i).length = n) (hN : Ntot ≠ 0) :
+    let r := sirIndividual nbrs (fun _ _ => tau) (fun _ => gamma) (fun _ => x) (fun _ => y)
+    let h := sirHomMF ((n : Rat) / Ntot) tau gamma (Ntot * x) (Ntot * y)
+    Ntot * r.1 i = h.1 ∧ Ntot * r.2 i = h.2 := by
+  intro r h
+  simp only [r, h, sirIndividual, sirHomMF, sumRat_map_const, hdeg]
+  refine ⟨?_, ?_⟩
+  · field_simp
+  · field_simp
+
+/-- compact pairwise SIR on an n-regular network = homogeneous pairwise (the closure Q becomes (n-1)/(n S)) -/
+theorem compactPW_sir_regular (K n : Nat) (hn : n < K) (tau gamma Ntot S I SS SI : Rat)
+    (hn0 : (n : Rat) ≠ 0) (hS : S ≠ 0) :
+    let r := sirCompactPW K tau gamma Ntot (only n S) SS SI (Ntot - S - I)
+    let h := sirHomPW (n : Rat) tau gamma S I SI SS
+    r.1 n = h.1 ∧ r.2.1 = h.2.2.2 ∧ r.2.2.1 = h.2.2.1 ∧ r.2.2.2 = gamma * I := by
+  intro r h
+  have h0 : sumTo K (only n S) = S := by
+    rw [sumTo_single K n hn _ (fun k hk => by simp [only, hk])]
+    simp [only]
+  have h1 : sumTo K (fun k => kf k * only n S k) = kf n * S := by
+    rw [sumTo_single K n hn _ (fun k hk => by simp [only, hk])]
+    simp [only]
+  have h2 : sumTo K (fun k => kf k * (kf k - 1) * only n S k) = kf n * (kf n - 1) * S := by
+    rw [sumTo_single K n hn _ (fun k hk => by simp [only, hk])]
+    simp [only]
+  simp only [r, h, sirCompactPW, sirHomPW, h0, h1, h2]
+  simp only [kf]
+  refine ⟨?_, ?_, ?_, ?_⟩
+  · simp only [only, if_true]
+    field_simp
+  · field_simp
+  · field_simp
+  · ring
+
+theorem compactPW_sis_regular (K n : Nat) (hn : n < K) (tau gamma Ntot S SS SI : Rat)
+    (hn0 : (n : Rat) ≠ 0) (hS : S ≠ 0) :
+    let r := sisCompactPW K tau gamma (Ntot * (n : Rat)) (only n Ntot) (only n S) SI SS
+    let h := sisHomPW Ntot (n : Rat) tau gamma S SI SS
+    r.1 n = h.1 ∧ r.2.1 = h.2.1 ∧ r.2.2 = h.2.2 := by
+  intro r h
+  have h1 : sumTo K (fun k => kf k * only n S k) = kf n * S := by
+    rw [sumTo_single K n hn _ (fun k hk => by simp [only, hk])]
+    simp [only]
+  have h2 : sumTo K (fun k => kf k * (kf k - 1) * only n S k) = kf n * (kf n - 1) * S := by
+    rw [sumTo_single K n hn _ (fun k hk => by simp [only, hk])]
+    simp [only]
+  simp only [r, h, sisCompactPW, sisHomPW, h1, h2]
+  simp only [kf]
+  refine ⟨?_, ?_, ?_⟩
+  · simp only [only, if_true]
+    field_simp
+  · field_simp
+  · field_simp
+
+end ODE
+
+/-! non-vacuity: a concrete degree distribution (P(1)=1/4, P(2)=1/2, P(3)=1/4), θ = 9/10, τ = 1, γ = 1/2, N = 100;
+the hypotheses of `ebcm_to_superCompact` / `ebcm_to_compact` hold, both sides of the θ, [SS] and [SI] equations are the
+same non-zero rational, and the regular-graph reduction is evaluated on a 3-regular state -/
+section NonVacuity
+open ODE
+private def cEx : Nat → Rat := fun k => [0, 1/4, 1/2, 1/4].getD k 0
+
+example : (1 : Rat) ≠ 0 ∧ (100 : Rat) ≠ 0 ∧ (9/10 : Rat) ≠ 0 ∧ psiHP 4 cEx (9/10) = 703/400 ∧ psiHP 4 cEx 1 = 2 := by
+  decide +kernel
+
+example :
+    (ebcm 4 cEx 100 1 (1/2) (9/10) 0 (9/10) 3).1 = -473/8000
+    ∧ sirSuperCompactPW 4 cEx 1 (1/2) 100 (9/10) (SSof 4 cEx 100 (9/10) (9/10)) (SIof 4 cEx 100 1 (1/2) (9/10) 0 (9/10)) 3
+      = (-473/8000, -140655537/6400000, -34685563/6400000, 631/80)
+    ∧ (sirCompactPW 4 1 (1/2) 100 (fun k => 100 * cEx k * (9/10) ^ k)
+        (SSof 4 cEx 100 (9/10) (9/10)) (SIof 4 cEx 100 1 (1/2) (9/10) 0 (9/10)) 3).2
+      = (-140655537/6400000, -34685563/6400000, 631/80)
+    ∧ dSSof 4 cEx 100 (9/10) (9/10) * (ebcm 4 cEx 100 1 (1/2) (9/10) 0 (9/10) 3).1 = -140655537/6400000
+    ∧ dSIof 4 cEx 100 1 (1/2) (9/10) 0 (9/10) * (ebcm 4 cEx 100 1 (1/2) (9/10) 0 (9/10) 3).1 = -34685563/6400000 := by
+  decide +kernel
+
+example : (sirCompactPW 5 1 (1/2) 100 (only 3 90) 200 30 (100 - 90 - 8)).2 = (-800/9, -65/9, 4)
+    ∧ sirHomPW 3 1 (1/2) 90 8 30 200 = (-30, 26, -65/9, -800/9) := by
+  decide +kernel
+end NonVacuity
